@@ -8,7 +8,10 @@ package main
 // (each in its own goroutine), waits until the Go scheduler reports that every one of them has
 // either returned or is blocked (harness/quiet: load-proof), and only then lets one of the parked
 // AddReference calls return — in a seeded random order when several are parked. VerifGate is nil
-// throughout.
+// throughout. The Release of a strong reference BLOCKS in the same way (whether the handler calls
+// it in a goroutine of its own or synchronously, holding its mutex or not): a handler that drops
+// its mutex around a synchronous Release and clears its field only afterwards misses a link that
+// arrives while the release is in flight.
 //
 // Monitor (model independent, reads only the counters of the fake instance and the calls the
 // engine itself made): at every quiescent point — every started call has returned, no
@@ -45,7 +48,8 @@ type blockInst struct {
 	handler directive.ReferenceHandler
 
 	mtx      sync.Mutex
-	parked   []chan struct{} // AddReference calls in flight
+	parked   []chan struct{} // AddReference / Release calls in flight
+	relPark  int             // ... of which Release calls
 	entered  int             // non-weak AddReference calls ever started
 	acquired int             // ... ever returned
 	released int             // non-weak references released (first Release of each)
@@ -86,13 +90,22 @@ func (r *blockRef) Release() {
 	if r.weak || r.released.Swap(true) {
 		return
 	}
-	r.inst.mtx.Lock()
-	r.inst.released++
-	r.inst.mtx.Unlock()
-	r.inst.events.Add(1)
+	f := r.inst
+	ch := make(chan struct{})
+	f.mtx.Lock()
+	f.parked = append(f.parked, ch)
+	f.relPark++
+	f.mtx.Unlock()
+	f.events.Add(1)
+	<-ch
+	f.mtx.Lock()
+	f.relPark--
+	f.released++
+	f.mtx.Unlock()
+	f.events.Add(1)
 }
 
-// letGo lets the k-th parked AddReference return (k taken modulo the number parked).
+// letGo lets the k-th parked AddReference / Release return (k taken modulo the number parked).
 func (f *blockInst) letGo(k int) bool {
 	f.mtx.Lock()
 	if len(f.parked) == 0 {
@@ -105,6 +118,12 @@ func (f *blockInst) letGo(k int) bool {
 	f.mtx.Unlock()
 	close(ch)
 	return true
+}
+
+func (f *blockInst) releasesParked() int {
+	f.mtx.Lock()
+	defer f.mtx.Unlock()
+	return f.relPark
 }
 
 func (f *blockInst) state() (parked, entered, acquired, released int) {
@@ -166,7 +185,7 @@ func (e *engine) holdInflight(steps []string, label string) {
 		if mon == "" {
 			mon, monCls = holdMonitor(live, out, false)
 			if mon != "" {
-				mon += fmt.Sprintf(" [AddReference blocks; script %s; %d strong references acquired, %d released]", strings.Join(trace, ","), acq, rel)
+				mon += fmt.Sprintf(" [AddReference and Release block; script %s; %d strong references acquired, %d released]", strings.Join(trace, ","), acq, rel)
 			}
 		}
 	}
@@ -182,6 +201,9 @@ func (e *engine) holdInflight(steps []string, label string) {
 			id := nextID
 			adds++
 			started.Add(1)
+			if inst.releasesParked() > 0 {
+				e.branch("inflight.add-while-releasing")
+			}
 			if parked > 0 {
 				e.branch("inflight.add-in-flight")
 				if !firstAcqDone && acq == 0 {
@@ -246,7 +268,7 @@ func (e *engine) holdInflight(steps []string, label string) {
 			break
 		}
 		if parked == 0 {
-			fail = "a handler call is blocked although no AddReference is in flight"
+			fail = "a handler call is blocked although no AddReference / Release is in flight"
 			break
 		}
 		inst.letGo(e.rng.Intn(4))
@@ -292,11 +314,14 @@ func (e *engine) holdInflight(steps []string, label string) {
 }
 
 func (e *engine) holdInflights() {
-	e.rep.Require("hold.inflight", "inflight.quiescent-links", "inflight.quiescent-nolinks", "inflight.add-in-flight", "inflight.rm-in-flight", "inflight.two-adds-before-first-acquire")
+	e.rep.Require("hold.inflight", "inflight.quiescent-links", "inflight.quiescent-nolinks", "inflight.add-in-flight", "inflight.rm-in-flight", "inflight.two-adds-before-first-acquire", "inflight.add-while-releasing")
 	e.holdInflight([]string{"add", "add", "go", "go", "rm", "rm"}, "two-adds-before-first-acquire")
 	e.holdInflight([]string{"add", "add", "go", "go"}, "two-adds-links-stay")
 	e.holdInflight([]string{"add", "add", "add", "go", "go", "go", "rm", "rm", "rm"}, "three-adds")
 	e.holdInflight([]string{"add", "rm", "go"}, "remove-while-acquiring")
+	e.holdInflight([]string{"add", "go", "rm", "add", "go", "go"}, "relink-while-releasing")
+	e.holdInflight([]string{"add", "go", "rm", "add", "go", "go", "rm", "go"}, "relink-while-releasing-then-remove")
+	e.holdInflight([]string{"add", "go", "rm", "add", "rm", "go", "go", "go"}, "flap-while-releasing")
 	e.holdInflight([]string{"add", "go", "rm", "add", "add", "go", "go", "rm", "rm"}, "second-generation")
 	e.holdInflight([]string{"add", "add", "rm", "go", "go", "rm"}, "add-add-remove-in-flight")
 	e.holdInflight([]string{"add", "add", "go", "rm", "go", "rm"}, "remove-between-acquisitions")
